@@ -44,6 +44,12 @@ def run_tests(d):
 
 
 def run_demo(d, demo):
+    # demonstrations were written inside <worktree>/_seed/<variant>/ and may refer to the
+    # worktree's examples/ relatively: reproduce that layout inside the scratch copy
+    place = os.path.join(d, "_seed", "x")
+    os.makedirs(place, exist_ok=True)
+    shutil.copy(demo, os.path.join(place, "demo.py"))
+    demo = os.path.join(place, "demo.py")
     env = dict(os.environ, PYTHONPATH=d)
     r = subprocess.run([PY, demo], cwd=os.path.dirname(demo), env=env, capture_output=True, text=True,
                        timeout=300)
@@ -60,6 +66,7 @@ def run_check(d, cid, tier="quick"):
 
 
 def validate(sd):
+    sd = os.path.abspath(sd)
     patch, demo = os.path.join(sd, "patch.diff"), os.path.join(sd, "demo.py")
     res = {}
     clean = scratch(None)
